@@ -165,6 +165,23 @@ NSS_JUNK = {"nss_other_db", "nss_unknown_only", "nss_comment", "nss_junk_binary"
 SVC_JUNK = {"svc_other_db", "svc_unknown_only", "svc_comment", "svc_junk_binary", "svc_noeq"}
 
 
+def register_numeric(rec):
+    """Numeric line classes (specs/Config/ConfigNum.tla: ns_num_<form>_<numeral>, opt_num_<key>_<numeral>,
+    sort_num_<family>_<numeral>) have no table here: TLC prints, with every scenario, the kind and the line text it
+    computed from the rules; they are entered into VARIANTS / JUNK / EXTREME as they are seen."""
+    num = rec.get("num") or {}
+    if not isinstance(num, dict):
+        return
+    for c, info in num.items():
+        if c in VARIANTS:
+            continue
+        VARIANTS[c] = [info["text"]]
+        if info["kind"] == "junk":
+            JUNK.add(c)
+        elif info["kind"] == "extreme":
+            EXTREME.add(c)
+
+
 def h32(*parts):
     m = hashlib.sha1()
     for p in parts:
